@@ -47,6 +47,9 @@ type Cfg struct {
 	Par        int            `json:"par"`
 	MaxTime    int            `json:"maxTime"`
 	RetryDelay int            `json:"retryDelay"`
+	// queue mode only
+	Restart bool     `json:"restart"` // after Close returned: a new Queue on the same spool directory
+	Hdr     []string `json:"hdr"`     // messages whose header cannot be opened (ELOOP) from the end of attempt 1 to the restart
 }
 
 type Behaviour struct {
@@ -84,6 +87,9 @@ type run struct {
 	q     *queue.Queue
 	dir   string
 	count map[string]int
+	hdr   map[string]bool
+	broke []string
+	q2    *queue.Queue
 }
 
 func (r *run) now() int { return int(time.Since(r.t0) / tickDur) }
@@ -183,6 +189,9 @@ func (t target) Start(ctx context.Context, meta *module.MsgMetadata, from string
 		g.Name = "w:" + e
 	}
 	if t.r.attempt(e) {
+		if t.r.hdr[id] {
+			t.r.breakHeader(id)
+		}
 		return nil, scripted.ErrFor("temp", "Start")
 	}
 	return delivery{}, nil
@@ -191,6 +200,53 @@ func (delivery) AddRcpt(context.Context, string, smtp.RcptOptions) error     { r
 func (delivery) Body(context.Context, textproto.Header, buffer.Buffer) error { return nil }
 func (delivery) Abort(context.Context) error                                 { return nil }
 func (delivery) Commit(context.Context) error                                { return nil }
+
+// breakHeader makes ID.header unopenable (a symbolic link onto itself: ELOOP)
+// without removing anything; restoreHeaders undoes it.
+func (r *run) breakHeader(id string) {
+	h := filepath.Join(r.dir, id+".header")
+	if os.Rename(h, h+".sav") == nil {
+		os.Symlink(id+".header", h)
+		r.broke = append(r.broke, id)
+	}
+}
+
+func (r *run) restoreHeaders() {
+	for _, id := range r.broke {
+		h := filepath.Join(r.dir, id+".header")
+		os.Remove(h)
+		os.Rename(h+".sav", h)
+	}
+	r.broke = nil
+}
+
+func (r *run) newQueue() (*queue.Queue, error) {
+	c := r.b.Cfg
+	return queue.VerifNewQueue(queue.VerifConfig{
+		Location: r.dir, Target: target{r}, MaxTries: 5, MaxParallelism: c.Par,
+		InitialRetryTime: time.Duration(c.RetryDelay) * tickDur, RetryTimeScale: 1, PostInitDelay: 0,
+		Hostname: "mx.example.org", AutogenMsgDomain: "example.org",
+		Log: log.Logger{Out: log.NopOutput{}},
+	})
+}
+
+// restart: a new Queue on the same spool directory (readDiskQueue re-schedules
+// what is pending), driven to quiescence with the clock running on.
+func (r *run) restart() {
+	r.q2 = r.q // (a restart is under way: the clock runs freely again)
+	r.restoreHeaders()
+	r.tr.Emit("Restart", vtrace.Ev{"now": r.now()})
+	r.nextName = "tick2"
+	r.s.Spawn("restart", func() {
+		q, err := r.newQueue()
+		if err != nil {
+			panic(err)
+		}
+		r.q2 = q
+	})
+	r.b.Sched, r.b.Delays, r.b.Pol = nil, nil, "db"
+	r.loop()
+}
 
 // ---------------------------------------------------------------- set-up
 
@@ -209,7 +265,7 @@ func (r *run) setup() {
 		switch {
 		case g.ID == 0:
 			g.Name = "tick"
-		case r.nextName != "":
+		case r.nextName != "" && g.Name[0] == 'a':
 			g.Name, r.nextName = r.nextName, ""
 		default:
 			nWorkers++
@@ -234,7 +290,8 @@ func (r *run) setup() {
 		for _, p := range producers {
 			p, due := p, c.Due[p]
 			r.s.Spawn(p, func() {
-				r.spool[p] = true
+				r.spool[p] = true // Start/AddRcpt/Body: the message is stored
+				vsched.Yield("op")
 				r.tr.Emit("AddCall", vtrace.Ev{"p": p, "ent": p, "due": due})
 				defer func() {
 					if v := recover(); v != nil {
@@ -258,12 +315,11 @@ func (r *run) setup() {
 	}
 
 	r.count = map[string]int{}
-	q, err := queue.VerifNewQueue(queue.VerifConfig{
-		Location: r.dir, Target: target{r}, MaxTries: 5, MaxParallelism: c.Par,
-		InitialRetryTime: time.Duration(c.RetryDelay) * tickDur, RetryTimeScale: 1, PostInitDelay: 0,
-		Hostname: "mx.example.org", AutogenMsgDomain: "example.org",
-		Log: log.Logger{Out: log.NopOutput{}},
-	})
+	r.hdr = map[string]bool{}
+	for _, m := range c.Hdr {
+		r.hdr[m] = true
+	}
+	q, err := r.newQueue()
 	if err != nil {
 		r.t.Fatal(err)
 	}
@@ -286,6 +342,7 @@ func (r *run) setup() {
 			if err := d.Body(ctx, hdr, buffer.MemoryBuffer{Slice: []byte("hello\r\n")}); err != nil {
 				panic(err)
 			}
+			vsched.Yield("op") // Body returned; Commit is a later step of the client
 			r.tr.Emit("AddCall", vtrace.Ev{"p": p, "ent": p, "due": 0})
 			defer func() {
 				if v := recover(); v != nil {
@@ -350,6 +407,12 @@ func (r *run) cap() int { return 2*r.b.Cfg.MaxTime + r.b.Cfg.RetryDelay + 2 }
 // clockOK: the clock runs freely up to MaxTime; beyond it only while nothing
 // else can run and something is still unfinished (to let pending timers fire).
 func (r *run) clockOK(runnable int) bool {
+	if c := r.b.Cfg; c.Restart && c.Mode == "queue" && r.q2 == nil && runnable == 0 {
+		// shut down and quiet: the restart comes now, not after the clock ran out
+		if g := r.s.ByName("closer"); g != nil && g.State() == vsched.Done {
+			return false
+		}
+	}
 	if r.now() < r.b.Cfg.MaxTime {
 		return true
 	}
@@ -514,13 +577,20 @@ func runBehaviour(t *testing.T, b Behaviour, w *bufio.Writer) {
 		r.tr = vtrace.New(w, b.ID)
 		c := b.Cfg
 		r.tr.Emit("Cfg", vtrace.Ev{"mode": c.Mode, "due": c.Due, "close": c.Close, "retry": append([]string{}, c.Retry...),
-			"par": c.Par, "maxTime": c.MaxTime, "retryDelay": c.RetryDelay})
+			"par": c.Par, "maxTime": c.MaxTime, "retryDelay": c.RetryDelay, "restart": c.Restart,
+			"hdr": append([]string{}, c.Hdr...)})
 		r.setup()
 		r.loop()
 		r.s.Settle()
+		if c.Restart && c.Mode == "queue" && c.Close {
+			if g := r.s.ByName("closer"); g != nil && g.State() == vsched.Done && len(r.s.Runnable()) == 0 {
+				r.restart()
+				r.s.Settle()
+			}
+		}
 		hung := []string{}
 		for _, g := range r.s.Unfinished() {
-			if g.Name != "tick" {
+			if g.Name != "tick" && g.Name != "tick2" {
 				hung = append(hung, g.Name)
 			}
 		}
